@@ -419,7 +419,10 @@ class ProgramModel:
         return out
 
     def is_enum(self, ci: ClassInfo) -> bool:
-        return "Enum" in self.base_names(ci)
+        return "Enum" in self.base_names(ci) or "Flag" in self.base_names(ci)
+
+    def is_flag(self, ci: ClassInfo) -> bool:
+        return "Flag" in self.base_names(ci)
 
     def module_assign(self, u: Unit, name: str) -> Optional[ast.expr]:
         for st in u.tree.body:
